@@ -32,3 +32,29 @@ def remarkable_dates(chk, tz):
         if ok != exp:
             chk.violation(f"real clock, TZ={tz}: chain with {what} {'accepted' if ok else 'rejected'}", f"real-clock-dates {what} TZ={tz}", {"entry": "validate_certificate_chain", "TZ": tz, "chain": what, "accepted": ok, "x5c": [c.hex() for c in p2.chain_der(leaf)]})
         chk.seen(("real-clock-dates", tz, what))
+
+
+def boundary_crossed_while_running(chk):
+    """a certificate that becomes valid (another that expires) a few seconds from now: refused (accepted) now, accepted (refused) a few seconds later - the clock is read
+    at each call, not when the library was imported or first used"""
+    from webauthn.helpers.validate_certificate_chain import validate_certificate_chain as vcc
+    now = int(time.time())
+    p = regsim.PKI("RT", n_inter=1, root_nb=now - 1000 * regsim.DAY, root_na=now + 1000 * regsim.DAY, inter_nb=now - 100 * regsim.DAY, inter_na=now + 100 * regsim.DAY)
+    soon = p.leaf(regsim.name("valid in 3 s"), regsim.ec_key("helper_leaf").public_key(), nb=now + 3, na=now + 3600)
+    ending = p.leaf(regsim.name("expires in 3 s"), regsim.ec_key("helper_leaf").public_key(), nb=now - 3600, na=now + 3)
+    def ok(leaf):
+        try:
+            vcc(x5c=p.chain_der(leaf), pem_root_certs_bytes=[p.root_pem()])
+            return True
+        except Exception:
+            return False
+    first = (ok(soon), ok(ending), time.time())
+    time.sleep(max(0.0, now + 5 - time.time()))
+    second = (ok(soon), ok(ending), time.time())
+    chk.evals += 4
+    if first[2] < now + 2.5 and (first[0], first[1]) != (False, True):
+        chk.violation("real clock: a leaf valid in 3 s accepted / a leaf expiring in 3 s refused", "real-clock-boundary before", {"entry": "validate_certificate_chain", "soon_valid_accepted": first[0], "soon_expired_accepted": first[1]})
+    if (second[0], second[1]) != (True, False):
+        chk.violation("real clock: five seconds later the verdicts on a leaf that has become valid / has expired meanwhile did not follow the clock", "real-clock-boundary after",
+                      {"entry": "validate_certificate_chain", "history": "same process, same certificates, 5 s apart", "became_valid_accepted": second[0], "expired_accepted": second[1],
+                       "x5c_soon": [c.hex() for c in p.chain_der(soon)]})
